@@ -178,6 +178,24 @@ def check_mac(prop, tier, seed):
                     known_lines.append(msg)
                 continue
             violation = violation or ("oracle", h)
+    # C15 also has implementation-side oracles on harness/rt `conv` lines (what the Select*
+    # conversions report for the world Wa with explicit, non-positional ids)
+    if prop == "C15":
+        for c in engine.QUICK_CONFIGS:
+            srt = engine.run_stream(c, "forge", seed, 30, 200)
+            h = next((x for x in srt.get("oracle_hits", []) if x["property"] == "C15"), None)
+            if h is not None:
+                ops = engine.seq_ops(srt["trace"], h["seq"])
+                pred = lambda r: any(x["property"] == "C15" and x["class"] == h["class"] for x in r["hits"])
+                try:
+                    small, final, trace_text = engine.shrink(c, ops, pred)
+                except Exception:  # noqa
+                    small, trace_text = ops, ""
+                path = write_replay(prop, "oracle-" + h["class"], {"property": prop, "kind": "oracle", "config": c, "seed": seed, "profile": "forge",
+                                                                   "what": h["what"], "class": h["class"], "ops": small, "trace": trace_text.splitlines()})
+                print(f"VIOLATION property={prop} replay={path}")
+                engine.write_evidence(prop, tier, seed, lean, [srt], 1, [], None, t0)
+                return 1
     e2 = run_e2e(seed, 120 if tier == "thorough" else 28)
     e2_hit = next((h for h in e2["hits"] if h["property"] == prop), None)
     broken_tie = []
